@@ -25,6 +25,7 @@ LEVEL_TEXT = (
     "interprocedural alias analysis: nothing the history arrays, the new series or the real data are lent to "
     "(samplers, losses, filters, checkpoint writer) writes into them in place. Re-running the model / recomputing a "
     "loss to compare values is a runtime clause and is not decided."
+    " Included: the shape-preservation rules of the deduplication wrapper (C12: sample() hands back exactly batch_size rows - the labels are written for batch_size samples), and the user's model receives a private copy of the proposed batch (it is the one callee not assumed to leave its argument alone)."
 )
 TECHNIQUE = "who-may-write + append-form rules, CFG region queries, normal forms, interprocedural alias/mutation analysis"
 
